@@ -507,6 +507,49 @@ impl FuChecker {
                 v.push(FuOp::ClosePos { u: A, id: "u-1".into(), partial: None });
                 v.push(pos(B, 0, 1000, DAY));
             }
+            "F10" => {
+                // two active farms on one LP with DIFFERENT owners, positions with amounts whose 10% penalty is odd
+                v.push(pos(A, 0, 1010, DAY));
+                v.push(pos(B, 0, 1000, 100 * DAY));
+                v.push(farm_op(fee, C, 0, Some(1), Some(5), ("uusdc", 4000), None));
+                v.push(farm_op(fee, OWNER, 0, Some(1), Some(5), ("uusdc", 4000), Some("o")));
+                v.push(FuOp::Advance { secs: DAY });
+                v.push(FuOp::Advance { secs: DAY });
+            }
+            "F11" => {
+                // F3, then B (who already claimed with a position in lp0 only) enters lp1 later: the claim cursor is per user,
+                // the weight history per LP token
+                v = self.seed_ops("F3");
+                v.push(FuOp::Claim { u: B, until: None });
+                v.push(FuOp::Advance { secs: DAY });
+                v.push(pos(B, 1, 1000, DAY));
+                v.push(FuOp::Advance { secs: DAY });
+            }
+            "F7" => {
+                // one open position next to ten closed ones of the same user (both per-user position limits in play)
+                v.push(FuOp::CreatePos { u: A, lp: 0, amount: 10_000, dur: DAY, id: Some("z".into()), recv: None });
+                v.push(pos(B, 0, 1000, 100 * DAY));
+                for _ in 0..10 {
+                    v.push(FuOp::ClosePos { u: A, id: "u-z".into(), partial: Some((0, 100)) });
+                }
+                v.push(farm_op(fee, C, 0, Some(1), Some(5), ("uusdc", 4000), None));
+                v.push(FuOp::Advance { secs: DAY });
+            }
+            "F8" => {
+                // a farm claimed down to exactly zero by its only staker
+                v.push(pos(A, 0, 1000, DAY));
+                v.push(farm_op(fee, C, 0, Some(1), Some(3), ("uusdc", 2000), None));
+                v.push(FuOp::Advance { secs: 3 * DAY });
+                v.push(FuOp::Claim { u: A, until: None });
+            }
+            "F9" => {
+                // users who claimed (for nothing) while their LP token had no farm at all
+                v.push(pos(A, 0, 1000, DAY));
+                v.push(pos(B, 0, 1000, DAY));
+                v.push(FuOp::Advance { secs: DAY });
+                v.push(FuOp::Advance { secs: DAY });
+                v.push(FuOp::Claim { u: A, until: None });
+            }
             "F6" => {
                 // more farms on one LP token than one page of the farm listing (needs max_concurrent_farms >= 12)
                 v.push(pos(A, 0, 1000, DAY));
@@ -596,6 +639,9 @@ pub fn enabled(c: &FuChecker, w: &World, pre: &FuObs, g: &FuGhost) -> Vec<FuOp> 
                 if p.open {
                     ops.push(FuOp::ExpandPos { u, id: p.identifier.clone(), lp: li, amount: 3 });
                     ops.push(FuOp::ClosePos { u, id: p.identifier.clone(), partial: None });
+                    if matches!(a, FAlpha::Full | FAlpha::Positions) {
+                        ops.push(FuOp::ClosePos { u, id: p.identifier.clone(), partial: Some((li, 0)) }); // closing nothing
+                    }
                     if amt > 1 {
                         ops.push(FuOp::ClosePos { u, id: p.identifier.clone(), partial: Some((li, 1)) });
                         if a != FAlpha::RewardCore && amt > 2 {
